@@ -244,6 +244,13 @@ def rv_src(rv):
         return "[%s]" % ", ".join(rv_src(x) for x in rv[1:])
     if rv[0] == "dict":
         return "{1: %s}" % rv_src(rv[1])
+    # right-hand sides that themselves mutate a variable (possibly the one being assigned to)
+    if rv[0] == "popof":
+        return "(pop %s)" % rv[1]
+    if rv[0] == "poplist":
+        return "[pop %s]" % rv[1]
+    if rv[0] == "setthen":
+        return "(%s = %s; %s)" % (rv[1], rv_src(rv[2]), rv_src(rv[3]))
     raise KeyError(rv)
 
 
@@ -256,6 +263,16 @@ def rv_val(rv, store):
         return ["l", [rv_val(x, store) for x in rv[1:]]]
     if rv[0] == "dict":
         return ["d", [[I(1), rv_val(rv[1], store)]]]
+    if rv[0] in ("popof", "poplist"):
+        cur = store[rv[1]]
+        if kind(cur) != "l" or not cur[1]:
+            return RAISE
+        x = cur[1][-1]
+        store[rv[1]] = ["l", copy.deepcopy(cur[1][:-1])]
+        return copy.deepcopy(x) if rv[0] == "popof" else ["l", [copy.deepcopy(x)]]
+    if rv[0] == "setthen":
+        store[rv[1]] = rv_val(rv[2], store)
+        return rv_val(rv[3], store)
     raise KeyError(rv)
 
 
@@ -275,6 +292,8 @@ def path_src(path, fields=("x", "y")):
 
 def stmt_src(s):
     k = s[0]
+    if k == "capture":      # the VALUE of the variable goes into a closure (as an argument): later mutations must not reach it
+        return "k = (\\v -> \\-> v)(%s%s)" % (s[1], path_src(s[2]))
     if k == "assign":
         return "%s%s = %s" % (s[1], path_src(s[2]), rv_src(s[3]))
     if k == "op":
@@ -318,8 +337,16 @@ def model_apply(store, s):
     """-> new store or RAISE"""
     st = copy.deepcopy(store)
     k = s[0]
+    if k == "capture":
+        v = getp(st[s[1]], s[2])
+        if v == RAISE:
+            return RAISE
+        st["k"] = copy.deepcopy(v)
+        return st
     if k == "assign":
         val = rv_val(s[3], st)
+        if val == RAISE:
+            return RAISE
         new = setp(st[s[1]], s[2], val)
         if new == RAISE:
             return RAISE
@@ -329,7 +356,9 @@ def model_apply(store, s):
         cur = getp(st[s[1]], s[2])
         if cur == RAISE:
             return RAISE
-        arg = rv_val(s[4], st)
+        arg = rv_val(s[4], st)       # the old value of the target was read BEFORE the right-hand side runs
+        if arg == RAISE:
+            return RAISE
         res = apply_op(s[3], cur, arg)
         if res == RAISE:
             return RAISE
@@ -487,7 +516,11 @@ def menu_lists():
         ("swap", a, [], b, []), ("swap", a, [i_(0)], a, [i_(1)]), ("swap", a, [i_(0)], b, [i_(0)]), ("swap", a, [i_(0)], c, []),
         # one slot named twice with different spellings (a no-op), and through an alias of the same list
         ("swap", a, [i_(1)], a, [i_(-1)]), ("swap", a, [i_(-2)], a, [i_(0)]), ("swap", a, [i_(0), i_(0)], a, [i_(0), i_(-2)]), ("swap", a, [i_(0)], a, [i_(0)]),
-        ("swap", a, [i_(-1)], b, [i_(-1)]),
+        ("swap", a, [i_(-1)], b, [i_(-1)]), ("capture", a, []), ("capture", a, [i_(0)]), ("capture", c, []),
+        # the right-hand side mutates the variable on the left: the old value was read first, the store goes into the variable as it is afterwards
+        ("op", a, [], "++", ("poplist", a)), ("op", a, [], "append", ("popof", a)), ("op", a, [i_(0)], "++", ("poplist", a)),
+        ("op", a, [], "append", ("setthen", a, lit(L(I(0)), "[0]"), SEVEN)), ("op", a, [i_(0)], "append", ("setthen", a, lit(L(L(I(0))), "[[0]]"), SEVEN)),
+        ("assign", a, [i_(0)], ("popof", a)), ("op", b, [], "++", ("poplist", a)), ("op", a, [], "++", ("setthen", b, lit(L(I(0)), "[0]"), VB)),
         ("consume", c, a), ("update", b, a, 0, lit(I(5), "5")), ("call", c, a), ("for", a), ("tuple", a, b, b, a),
     ]
     return m
@@ -508,7 +541,7 @@ def menu_dicts():
         ("op", c, [k_(2)], "append", lit(I(6), "6")), ("op", a, [k_(1)], "++", lit(L(I(6)), "[6]")), ("op", a, [k_(1), i_(0)], "+", ONE),
         ("remove", a, [k_(1)]), ("remove", a, [k_(1), i_(0)]), ("remove", b, [k_(2)]), ("pop", a, [k_(1)]),
         ("swap", a, [], b, []), ("swap", a, [k_(1)], a, [k_(2)]), ("swap", a, [k_(1)], b, [k_(2)]),
-        ("swap", a, [k_(1)], a, [k_(1)]), ("swap", a, [k_(1), i_(0)], a, [k_(1), i_(-1)]),
+        ("swap", a, [k_(1)], a, [k_(1)]), ("swap", a, [k_(1), i_(0)], a, [k_(1), i_(-1)]), ("capture", a, []), ("capture", a, [k_(1)]),
         ("consume", c, a), ("for", a), ("assign", b, [], ("list", VA, VC)), ("assign", b, [i_(0), k_(1), i_(0)], lit(I(2), "2")),
         ("op", b, [i_(1), k_(7)], "append", ONE),
     ]
@@ -526,7 +559,7 @@ def menu_flat(kindname):
         ("assign", b, [], VA), ("assign", a, [], VB), ("assign", c, [], ("list", VA, VA)), ("assign", a, [i_(0)], v1), ("assign", a, [i_(1)], v1),
         ("assign", a, [i_(0)], v2), ("assign", b, [i_(-1)], v1), ("assign", c, [i_(0), i_(0)], v1), ("assign", c, [i_(1)], VB), cat,
         ("swap", a, [], b, []), ("swap", a, [i_(0)], a, [i_(1)]), ("swap", a, [i_(0)], b, [i_(0)]), ("swap", c, [i_(0)], a, []),
-        ("swap", a, [i_(2)], a, [i_(-1)]), ("swap", c, [i_(0)], c, [i_(-2)]),
+        ("swap", a, [i_(2)], a, [i_(-1)]), ("swap", c, [i_(0)], c, [i_(-2)]), ("capture", a, []), ("capture", c, []),
         ("consume", c, a), ("for", a), ("assign", a, [i_(5)], v1), ("tuple", a, b, b, a), ("every", c, [("s", 0, 2), i_(0)], v1),
         ("op", c, [], "append", VA),
     ]
@@ -543,7 +576,7 @@ def menu_struct():
         ("assign", a, [f_(1)], lit(I(9), "9")), ("assign", a, [f_(0), i_(0)], SEVEN), ("assign", a, [f_(1)], lit(["f", "4000000000000000"], "2.0")),
         ("assign", a, [f_(0)], lit(L(["f", "3ff0000000000000"]), "[1.0]")), ("assign", c, [i_(0), f_(1)], lit(["f", "4000000000000000"], "2.0")), ("assign", a, [f_(1)], VA), ("assign", a, [f_(0)], VB),
         ("op", c, [i_(0), f_(0)], "append", ONE), ("assign", c, [i_(1), f_(1)], L8), ("op", a, [f_(1)], "+", ONE), ("op", b, [f_(0)], "++", lit(L(I(6)), "[6]")),
-        ("swap", a, [], b, []), ("swap", a, [f_(0)], a, [f_(1)]), ("swap", a, [f_(0)], b, [f_(0)]), ("swap", a, [f_(0), i_(0)], a, [f_(0), i_(-1)]),
+        ("swap", a, [], b, []), ("swap", a, [f_(0)], a, [f_(1)]), ("swap", a, [f_(0)], b, [f_(0)]), ("swap", a, [f_(0), i_(0)], a, [f_(0), i_(-1)]), ("capture", a, []), ("capture", a, [f_(0)]),
         ("swap", c, [i_(0), f_(1)], c, [i_(-2), f_(1)]), ("consume", c, a), ("pop", a, [f_(0)]),
         ("remove", a, [f_(0), i_(0)]), ("every", c, [("s", 0, 2), f_(1)], SEVEN), ("tuple", a, b, b, a),
     ]
@@ -564,7 +597,7 @@ def menu_mixed():
     return [
         ("assign", b, [], VA), ("assign", c, [], ("var", "a")), ("op", a, [i_(0), k_(1)], "append", lit(I(2), "2")), ("assign", c, [k_(1), i_(0)], lit(I(5), "5")),
         ("assign", a, [i_(0), k_(2)], VC), ("assign", a, [i_(0)], VC), ("op", b, [i_(0), k_(1)], "++", lit(L(I(6)), "[6]")), ("assign", c, [k_(1)], VA),
-        ("swap", a, [i_(0)], c, []), ("swap", a, [i_(0), k_(1)], c, [k_(1)]), ("remove", a, [i_(0), k_(1)]), ("pop", a, [i_(0), k_(1)]),
+        ("swap", a, [i_(0)], c, []), ("swap", a, [i_(0), k_(1)], c, [k_(1)]), ("capture", a, []), ("capture", a, [i_(0)]), ("remove", a, [i_(0), k_(1)]), ("pop", a, [i_(0), k_(1)]),
         ("op", a, [], "append", VC), ("every", a, [("s", 0, 2), k_(1)], L8), ("consume", b, a), ("assign", a, [], ("list", VC, VC)),
         ("assign", a, [i_(1), k_(1), i_(0)], lit(I(4), "4")), ("op", c, [k_(1), i_(0)], "+", ONE), ("tuple", a, c, c, a),
     ]
@@ -591,7 +624,7 @@ SCENARIOS = {
     "mixed": {"pre": ["a := [{1: [1]}, 0]", "b := a", "c := a[0]"],
               "store": {"a": L(["d", [[I(1), L(I(1))]]], I(0)), "b": L(["d", [[I(1), L(I(1))]]], I(0)), "c": ["d", [[I(1), L(I(1))]]]}, "menu": menu_mixed},
 }
-COMMON_PRE = ["h := \\v -> (v[0] = 7; v append= 1; v)", "g := \\-> a"]
+COMMON_PRE = ["h := \\v -> (v[0] = 7; v append= 1; v)", "g := \\-> a", "k := \\-> null"]
 
 
 def starts(tier):
@@ -625,7 +658,7 @@ def make_case(tier, start, hist):
     steps = []
     for s in hist:
         steps.append(stmt_src(s))
-        steps.append("g()")
+        steps.append("[g(), k()]")
     return Case(steps, {"kind": "hist", "start": start, "hist": hist}, pre=sc["pre"] + COMMON_PRE, iso=False,
                 opts={"dump": ["a", "b", "c"], "shape": True, "cap": 16})
 
@@ -668,7 +701,8 @@ def extends(case, rs):
 
 def state_key(case, rs):
     n = len(case.meta["hist"])
-    return json.dumps(rs[2 * n - 2]["d"], sort_keys=True)
+    kv = rs[2 * n - 1].get("v") if len(rs) >= 2 * n else None      # what the value-capturing closure holds is part of the state
+    return json.dumps([rs[2 * n - 2]["d"], kv[1][1] if isinstance(kv, list) and kv and kv[0] == "l" and len(kv[1]) == 2 else None], sort_keys=True)
 
 
 def same_value(got, want):
@@ -711,8 +745,12 @@ def judge(case, rs):
             break
     if len(rs) >= 2 * n:
         g = rs[2 * n - 1]
-        if g.get("st") != "ok" or not same_value(norm(g.get("v")), after["a"]):
+        gv = norm(g.get("v")) if g.get("st") == "ok" else None
+        ok_shape = isinstance(gv, list) and gv and gv[0] == "l" and len(gv[1]) == 2
+        if not ok_shape or not same_value(gv[1][0], after["a"]):
             out.append(Violation(sig + " result=closure-sees-stale-or-wrong-value", "%s: g() is %s but a is %s" % (trail, json.dumps(g.get("v", g.get("e")))[:200], json.dumps(norm(after["a"]))[:200]), norm(after["a"]), g.get("v")))
+        elif not same_value(gv[1][1], after.get("k")):
+            out.append(Violation(sig + " result=captured-value-changed", "%s: the closure that captured a VALUE now returns %s, it captured %s" % (trail, json.dumps(gv[1][1])[:200], json.dumps(norm(after.get("k")))[:200]), norm(after.get("k")), gv[1][1]))
     return out
 
 
